@@ -168,6 +168,51 @@ def main():
     reps += ["del 3 0,1,2 - " + vlib.hx(b"\x00K" + b"x" * 20000 + b"\x00"), "del 2 0,1 1 " + vlib.hx(b"\x01Z" + b"y\n" * 6000 + b"\x00\x00D\x00")]
     harness_stream("h_deldochan", "qmail-send", reps, "send_delivery_reports", args=[qd])
 
+    # ---------------------------------------------------------------- the proved models against the real functions
+    drv = vlib.build_driver("C20")
+    def tie(hname, prog, lines, stream, link=None):
+        try:
+            h = rb.harness(hname, prog) if link is None else rb.compile_harness(os.path.join(vlib.VERIF, "harness", hname + ".c"), os.path.join(vlib.scratch(), hname + ".san"), objs=link)
+        except vlib.HarnessBuildError as e:
+            mism.append(dict(stream="harness " + hname + " does not build", input="", real=str(e)[-800:], model="")); return
+        p = subprocess.run([h], input=("\n".join(lines) + "\n").encode(), stdout=subprocess.PIPE, stderr=subprocess.PIPE, env=env0, timeout=300)
+        real = p.stdout.decode("latin1").split("\n")[:-1]
+        if SAN_RE.search(p.stderr) or len(real) != len(lines):
+            fails.append(("memory:%s:sanitizer" % stream, dict(kind="input", surface=stream, line=lines[min(len(real), len(lines) - 1)][:3000], stderr_tail=p.stderr[-600:].decode("latin1")), 0)); return
+        return real
+    # token822_parse: sizes asked for by the counting pass (fresh allocations make them visible) = count_pass
+    cl = ["cnt " + vlib.hx(t) for t in toks if len(t) < 3000]
+    real = tie("h_inject", "qmail-inject", cl, "token822_count_pass")
+    if real:
+        mod, _, _ = vlib.run_lines(drv, cl)
+        for l, a, b in zip(cl, real, mod):
+            ck.evaluated(); ck.count("tie_count_pass")
+            # alloc(0) keeps the field null, which the harness reports as capacity 0 as well
+            if a != b: mism.append(dict(stream="token822 counting pass", input=l[:300], real=a, model=b))
+    # stralloc growth: arithmetic and refusal of overflowing requests
+    sl = []
+    B = 4294967296
+    for _ in range(1500 * N):
+        op = rng.choice(["rp", "rdy", "catb", "copyb", "append"])
+        nul = rng.random() < 0.2
+        honest = op in ("catb", "copyb", "append")
+        if honest and rng.random() < 0.8:
+            a = rng.choice([1, 2, 29, 30, 31, 100, 1000, 4096]); ln = rng.choice([0, a // 2, max(0, a - 2), a - 1, a]); n = rng.choice([0, 1, 2, 30, 31, 500, 3000])
+        elif honest:                                  # must be refused before any byte is written
+            a = B - rng.choice([1, 2, 100]); ln = a - rng.choice([0, 1, 5]); n = B - ln - rng.choice([0, 1]) if op != "append" else 0
+            if op == "append": ln = B - 1; a = B - 1
+            if op == "copyb": n = B - 1
+            nul = False
+        else:
+            a = rng.choice([0, 1, 30, 1000, 2 ** 31, B - 40, B - 1]); ln = rng.choice([0, a // 2, a]); n = rng.choice([0, 1, 31, 2 ** 31, B - ln - 1, (B - ln) % B, B - 1, B - 31])
+        sl.append("%s %d %d %d %d" % (op, nul, a, ln, n) if op != "append" else "append %d %d %d" % (nul, a, ln))
+    real = tie("h_stralloc", None, sl, "stralloc_growth", link=["stralloc.a", "error.a", "str.a"])
+    if real:
+        m1, _, _ = vlib.run_lines(drv, [l + " 1" for l in sl]); m0, _, _ = vlib.run_lines(drv, [l + " 0" for l in sl])
+        for l, a, b1, b0 in zip(sl, real, m1, m0):
+            ck.evaluated(); ck.count("tie_stralloc")
+            if a != b1 and a != b0: mism.append(dict(stream="stralloc growth", input=l, real=a, model="%s (allocation succeeds) / %s (fails)" % (b1, b0)))
+    # netstring lengths: the model's verdict against the exit of the real qmail-qmtpd
     # ---------------------------------------------------------------- whole programs (sanitised binaries)
     def run_prog(S, argv, inp, env=None, cwd=None, preexec=None, timeout=60):
         e = dict(env0)
@@ -203,6 +248,16 @@ def main():
     for it in inputs:
         inp, rl = it if isinstance(it, tuple) else (it, rng.choice([0, 0, 14]))
         run_prog(S, [rb.path("qmail-qmtpd")], inp, env=dict(net, RELAYCLIENT="@" + "r" * (rl - 1)) if rl else net)
+    gl = [b"".join(rng.choice([b"0", b"1", b"2", b"9", b"9", b"/", b":", b"a", b" "]) for _ in range(rng.randint(1, 14))) for _ in range(150 * N)] + [b"2000000009:", b"2000000010:", b"200000001:", b"0:", b":", b"00000000000000000000001:"]
+    gm, _, _ = vlib.run_lines(drv, ["getlen " + vlib.hx(g) for g in gl])
+    for g, m in zip(gl, gm):
+        p = run_prog(S, [rb.path("qmail-qmtpd")], g, env=net)
+        if p is None: continue
+        ck.count("tie_getlen")
+        want = {"res": (111,), "bad": (100,)}.get(m.split()[0])
+        if m.startswith("ok 0"): want = (100,)                     # an empty message is a protocol error
+        if want and p.returncode not in want:
+            mism.append(dict(stream="netstring length", input=vlib.hx(g), real="exit %d" % p.returncode, model=m))
     # QMQP
     S = Surface(ck, "qmail-qmqpd", fails, {0, 100, 111})
     baseq = ns(ns(b"Subject: x\n\nb\n") + ns(b"s@x.example") + ns(b"u@y.example") + ns(b"v@y.example"))
